@@ -8,6 +8,8 @@
 //	CRead   one read through ociclient against a fault-injecting http.RoundTripper that
 //	        replaces the response of a real server (body bytes, how the body is cut into
 //	        Read results, Content-Length, Docker-Content-Digest, Content-Range, status);
+//	CBig    a content of 64 KiB .. tens of MiB pushed through one path on one stack and read back
+//	        (identified by length and SHA-256; see big.go);
 //	CRange  one ranged blob GET on the wire: the Range header the client sent for (o0, o1),
 //	        or a hand-written one, and the status / Content-Range / Content-Length / body the
 //	        server answered.
@@ -22,10 +24,11 @@ import (
 )
 
 type caseInput struct {
-	Kind  string     `json:"kind"` // hist | read | range
+	Kind  string     `json:"kind"` // hist | read | range | big
 	Hist  *history   `json:"hist,omitempty"`
 	Read  *readCase  `json:"read,omitempty"`
 	Range *rangeCase `json:"range,omitempty"`
+	Big   *bigCase   `json:"big,omitempty"`
 }
 
 func runInput(out *hx.Out, in caseInput, origin string) {
@@ -41,6 +44,10 @@ func runInput(out *hx.Out, in caseInput, origin string) {
 	case "range":
 		if in.Range != nil {
 			runRange(out, *in.Range, origin)
+		}
+	case "big":
+		if in.Big != nil {
+			runBig(out, *in.Big, origin)
 		}
 	}
 }
@@ -82,6 +89,7 @@ func main() {
 	genHistories(out, rnd, scale)
 	genReads(out, rnd, scale)
 	genRanges(out, rnd, scale)
+	genBig(out, rnd, scale)
 	out.Extra["note"] = fmt.Sprintf("tier=%s seed=%d", cfg.Tier, cfg.Seed)
 	if err := out.Flush(); err != nil {
 		panic(err)
